@@ -4,3 +4,4 @@ import Bp7.Props.C08
 #print axioms Bp7.C08.hopStep_fst
 #print axioms Bp7.C08.ageStep_fst
 #print axioms Bp7.C08.lifetimeExceeded_iff
+#print axioms Bp7.C08.update_true_frame_sat
